@@ -311,7 +311,10 @@ fn hostile_pkesk_case(t: &mut Tape, rec: &mut Rec, kinds: &[Kind], li_classes: u
         if let Ok(values) = p.values() {
             for typ in [pgp::types::EskType::V3_4, pgp::types::EskType::V6] {
                 let _ = z.secret.secret_subkeys[0].key.decrypt(&Password::empty(), values, typ);
-                let _ = z.locked.secret_subkeys[0].key.decrypt(&Password::from(zoo::LOCK_PW), values, typ);
+                // (unlocking costs an S2K derivation: every case in the thorough tier, one in eight otherwise)
+                if li_classes == 41 || idx % 8 == 0 {
+                    let _ = z.locked.secret_subkeys[0].key.decrypt(&Password::from(zoo::LOCK_PW), values, typ);
+                }
             }
         }
     }
